@@ -57,7 +57,7 @@ func runGuard(c *Ctx, cfg guardCfg) (nFields, nPairs int) {
 	}
 	sort.Slice(fns, func(i, j int) bool { return fns[i].String() < fns[j].String() })
 	for _, fn := range fns {
-		for _, a := range fieldAccesses(fn) {
+		for _, a := range fieldAccessesShallow(fn) {
 			if !cfg.sharedTypes[a.Type] {
 				continue
 			}
@@ -169,7 +169,7 @@ func checkC14(c *Ctx) Meta {
 	}
 	sort.Slice(cfns, func(i, j int) bool { return cfns[i].String() < cfns[j].String() })
 	for _, fn := range cfns {
-		allInstrs(fn, func(in ssa.Instruction) {
+		allInstrsShallow(fn, func(in ssa.Instruction) {
 			v, ok := in.(ssa.Value)
 			if !ok {
 				return
